@@ -63,7 +63,7 @@ def run_selftest(pid: str, prog: Program, base_keys: List[str], tier: str, jobs:
     rules fire on BREAKS operators and stay silent on PRESERVES operators."""
     from mutants.catalog import mutants_for, apply_mutant, reference_ok
     muts = mutants_for(pid, quick_only=(tier == 'quick'))
-    res = {'applied': 0, 'killed': 0, 'silent_ok': 0, 'skipped': 0, 'failed': [], 'stale': [], 'matrix': []}
+    res = {'applied': 0, 'killed': 0, 'silent_ok': 0, 'skipped': 0, 'missed': 0, 'failed': [], 'stale': [], 'matrix': []}
     work = []
     for m in muts:
         srcs, why = apply_mutant(m, prog.sources)
@@ -126,6 +126,11 @@ def run_selftest(pid: str, prog: Program, base_keys: List[str], tier: str, jobs:
             good = status == 'violation' and bool(new_keys)
             if good:
                 res['killed'] += 1
+        elif m['expect'] == 'MISSED':
+            # a recorded miss: the change breaks the property but no structural rule of this family sees it (DESIGN.md)
+            good = status != 'error'
+            if good:
+                res['missed'] = res.get('missed', 0) + 1
         elif m['expect'] == 'INCONCLUSIVE':
             # a recorded limit of the rules: the change is outside the verified idioms and is answered with exit 2
             good = status in ('inconclusive', 'violation')
@@ -253,7 +258,7 @@ def run(a, replay_key=None) -> int:
         stats.update(cx.effects.call_stats())
     extra = {}
     if selftest is not None:
-        extra['mutants'] = {k: selftest[k] for k in ('applied', 'killed', 'silent_ok', 'skipped', 'failed', 'stale')}
+        extra['mutants'] = {k: selftest[k] for k in ('applied', 'killed', 'silent_ok', 'skipped', 'missed', 'failed', 'stale')}
         extra['mutant_matrix'] = selftest['matrix']
     if knowns_hit:
         extra['known_findings'] = [{'key': o.key, 'where': o.where, 'text': k.text} for o, k in knowns_hit]
